@@ -1,7 +1,7 @@
 (* LayoutExamples.v — instances of the C14 theorems' hypotheses and witnesses for what does NOT hold of the code as it is. *)
 From Coq Require Import String Ascii List Bool Arith ZArith.
 Import ListNotations.
-Require Import Generated PyBase PyStr Lex Symbols Split Merge ParseEq ParseModel GLex GLexFacts GNorm Layout LayoutNorm LayoutLex LayoutSplit Denorm DenormInt DenormFacts.
+Require Import Generated PyBase PyStr Lex Symbols Split Merge ParseEq ParseModel GLex GLexFacts GNorm Layout LayoutNorm LayoutLex LayoutSplit Denorm DenormInt DenormFacts LayoutScript.
 Open Scope string_scope.
 
 Definition names_of (r : pres (list symbol)) : option (list (option string * ptype * option pidx * option pidx)) :=
@@ -86,3 +86,11 @@ Definition ex_lay : layout := fun name i => if String.eqb name "C" then ("", "",
 Example ex_lay_ok : dq_ok ex_lay ex_fix_q = true /\
   denorm_text ex_lay ex_fix_q = "C[1] = (alpha_1[ 0  ] * max(YD[ 2  ], H[ -1  ]) if X[ '2000'  ] <= 0 else `np.pi *  2`)".
 Proof. vm_compute. split; reflexivity. Qed.
+
+(* hypotheses of the script-level comment / blank-line theorems *)
+Example ex_comment_ok : comment_ok "Y = X" "  " " trailing # twice" = true /\ comment_ok "Y = X " "" "c" = false /\ comment_ok "Y = '#'" " " "c" = false.
+Proof. vm_compute. repeat split; reflexivity. Qed.
+Example ex_blank_between :
+  ex_s1 <> "" /\ ends_sep ex_s1 = false /\ final_state s0 (model_lines ex_s1) = Some s0 /\ clean s0 = true /\
+  nosep "   # only a comment" = true /\ is_blank (strip_comments "   # only a comment") = true /\ nosep "" = true /\ is_blank (strip_comments "") = true.
+Proof. split; [discriminate|]. vm_compute. repeat split; reflexivity. Qed.
